@@ -19,8 +19,32 @@ use std::sync::{Arc, Condvar, Mutex};
 pub mod sched {
     use super::*;
 
+    thread_local! {
+        /// the scheduler entity (0 = the thread that called `run`, n = task n) this OS thread is; None for threads the
+        /// scheduler does not own
+        pub(crate) static ENTITY: std::cell::Cell<Option<u32>> = const { std::cell::Cell::new(None) };
+    }
+    /// pre-emption bound for the scheduling points INSIDE item closures (operations on the intercepted std::sync types, see
+    /// mc/verif-std): 0 = closures are atomic (pure item-level exploration)
+    pub(crate) static BOUND: std::sync::atomic::AtomicUsize = std::sync::atomic::AtomicUsize::new(0);
+    pub fn set_preemption_bound(n: usize) {
+        BOUND.store(n, std::sync::atomic::Ordering::SeqCst);
+    }
+    pub fn preemption_bound() -> usize {
+        BOUND.load(std::sync::atomic::Ordering::SeqCst)
+    }
+
     #[derive(Default)]
     pub(crate) struct State {
+        /// pre-emptions taken so far / allowed in this execution
+        pub preemptions: usize,
+        pub bound: usize,
+        /// operations on intercepted synchronisation primitives met while an entity held the baton
+        pub sync_points: u64,
+        /// entity -> address of the lock it waits for
+        pub blocked: BTreeMap<u32, usize>,
+        /// address of a lock -> entities holding it (several readers of an RwLock)
+        pub holders: HashMap<usize, Vec<u32>>,
         pub active: bool,
         pub current: Option<u32>,
         pub next_id: u32,
@@ -48,11 +72,17 @@ pub mod sched {
         pub tasks: u64,
         /// set when the replayed prefix did not fit the choice points met (nondeterminism not owned)
         pub diverged: Option<String>,
+        /// operations on intercepted std::sync primitives met, and pre-emptions taken at them
+        pub sync_points: u64,
+        pub preemptions: usize,
     }
 
     pub(crate) fn pick_next(st: &mut State) {
         let cands: Vec<u32> = st.runnable.iter().copied().collect();
         if cands.is_empty() {
+            if !st.blocked.is_empty() {
+                deadlock(st);
+            }
             st.current = None;
             return;
         }
@@ -79,11 +109,13 @@ pub mod sched {
         {
             let mut g = STATE.lock().unwrap();
             assert!(g.is_none(), "nested sched::run");
-            *g = Some(State { active: true, current: Some(0), next_id: 1, prefix: prefix.to_vec(), ..Default::default() });
+            *g = Some(State { active: true, current: Some(0), next_id: 1, prefix: prefix.to_vec(), bound: preemption_bound(), ..Default::default() });
         }
+        ENTITY.with(|e| e.set(Some(0)));
         let r = catch_unwind(AssertUnwindSafe(f));
+        ENTITY.with(|e| e.set(None));
         let st = STATE.lock().unwrap().take().unwrap();
-        let mut out = Outcome { choices: st.choices, order: st.order, regions: st.regions, tasks: st.tasks, diverged: st.diverged };
+        let mut out = Outcome { choices: st.choices, order: st.order, regions: st.regions, tasks: st.tasks, diverged: st.diverged, sync_points: st.sync_points, preemptions: st.preemptions };
         if st.pos < st.prefix.len() && out.diverged.is_none() {
             out.diverged = Some(format!("only {} choice points met, prefix has {}", st.pos, st.prefix.len()));
         }
@@ -95,6 +127,121 @@ pub mod sched {
 
     pub fn is_active() -> bool {
         STATE.lock().unwrap().as_ref().map(|s| s.active).unwrap_or(false)
+    }
+
+    /// Every entity that could run is waiting for a lock held by an entity that cannot run: the execution cannot continue
+    /// under ANY continuation of this schedule. The process is ended (the driver runs every execution in a process of its
+    /// own, or names the execution in flight when a worker process dies) - an observation like any other.
+    fn deadlock(st: &State) -> ! {
+        eprintln!("VERIF-DEADLOCK under the controlled scheduler: entities waiting for locks {:?}; holders {:?}; schedule so far {:?}", st.blocked, st.holders.iter().filter(|(_, v)| !v.is_empty()).collect::<Vec<_>>(), st.choices.iter().map(|c| c.0).collect::<Vec<_>>());
+        std::process::abort();
+    }
+
+    /// true when the calling thread is an entity of a running thread-per-task exploration and holds the baton
+    pub fn controlled() -> bool {
+        let me = match ENTITY.with(|e| e.get()) {
+            Some(m) => m,
+            None => return false,
+        };
+        match STATE.lock().unwrap().as_ref() {
+            Some(st) => st.active && st.current == Some(me),
+            None => false,
+        }
+    }
+
+    /// Called by the intercepted primitives BEFORE a visible operation: a scheduling point inside an item closure. Within the
+    /// pre-emption bound every other runnable entity may be given the baton here (alternative 0 = go on).
+    pub fn sync_point(_what: &'static str) {
+        let me = match ENTITY.with(|e| e.get()) {
+            Some(m) => m,
+            None => return,
+        };
+        let mut g = STATE.lock().unwrap();
+        let st = match g.as_mut() {
+            Some(s) if s.active && s.current == Some(me) => s,
+            _ => return,
+        };
+        st.sync_points += 1;
+        if st.runnable.is_empty() || st.preemptions >= st.bound {
+            return;
+        }
+        let n = 1 + st.runnable.len();
+        let mut pick = 0usize;
+        if st.pos < st.prefix.len() {
+            pick = st.prefix[st.pos];
+            if pick >= n {
+                st.diverged = Some(format!("choice point {} (inside a closure): prefix asks for alternative {} of {}", st.pos, pick, n));
+                pick = 0;
+            }
+        }
+        st.pos += 1;
+        st.choices.push((pick, n));
+        if pick == 0 {
+            return;
+        }
+        st.preemptions += 1;
+        let id = *st.runnable.iter().nth(pick - 1).unwrap();
+        st.runnable.remove(&id);
+        st.runnable.insert(me);
+        st.current = Some(id);
+        st.order.push(id);
+        CV.notify_all();
+        while g.as_ref().unwrap().current != Some(me) {
+            g = CV.wait(g).unwrap();
+        }
+    }
+
+    /// The calling entity found the lock at `addr` taken. Returns false when the holder is not an entity of this exploration
+    /// (the caller then waits for real); otherwise the entity is descheduled until the lock is released, then returns true
+    /// (the caller tries again).
+    pub fn block_on(addr: usize, _what: &'static str) -> bool {
+        let me = match ENTITY.with(|e| e.get()) {
+            Some(m) => m,
+            None => return false,
+        };
+        let mut g = STATE.lock().unwrap();
+        let st = match g.as_mut() {
+            Some(s) if s.active && s.current == Some(me) => s,
+            _ => return false,
+        };
+        if !st.holders.get(&addr).map(|v| !v.is_empty()).unwrap_or(false) {
+            return false;
+        }
+        st.blocked.insert(me, addr);
+        pick_next(st);
+        CV.notify_all();
+        while g.as_ref().unwrap().current != Some(me) {
+            g = CV.wait(g).unwrap();
+        }
+        true
+    }
+
+    pub fn acquired(addr: usize, _exclusive: bool) {
+        let me = match ENTITY.with(|e| e.get()) {
+            Some(m) => m,
+            None => return,
+        };
+        if let Some(st) = STATE.lock().unwrap().as_mut() {
+            if st.active {
+                st.holders.entry(addr).or_default().push(me);
+            }
+        }
+    }
+
+    pub fn released(addr: usize, _exclusive: bool) {
+        let me = ENTITY.with(|e| e.get());
+        if let Some(st) = STATE.lock().unwrap().as_mut() {
+            if let Some(v) = st.holders.get_mut(&addr) {
+                if let Some(i) = v.iter().position(|h| Some(*h) == me).or(if v.is_empty() { None } else { Some(0) }) {
+                    v.remove(i);
+                }
+            }
+            let waiting: Vec<u32> = st.blocked.iter().filter(|(_, a)| **a == addr).map(|(e, _)| *e).collect();
+            for e in waiting {
+                st.blocked.remove(&e);
+                st.runnable.insert(e);
+            }
+        }
     }
 }
 
@@ -144,6 +291,7 @@ fn run_region<'a, T: Send + 'a>(thunks: Vec<Thunk<'a, T>>) -> (Vec<Option<T>>, V
             let panic_slot = &panic_slot;
             let remaining = &remaining;
             s.spawn(move || {
+                sched::ENTITY.with(|e| e.set(Some(id)));
                 // wait for the baton
                 {
                     let mut g = sched::STATE.lock().unwrap();
